@@ -377,6 +377,59 @@ def generate_group(gid, ir_doc, runs, case=None, trace_first=False):
     return res
 
 
+SEQ_STEPS = [
+    # (same Config object as the step before?, setters applied, configuration in effect)
+    (False, {"exhaustive": True, "serialize_empty_collections": True, "strip_prefix": "com.palantir"}, None),
+    (True, {"exhaustive": False, "serialize_empty_collections": False}, {"strip_prefix": "com.palantir"}),
+    (False, {}, None),
+    (False, {"exhaustive": True, "strip_prefix": "com.palantir.conjure"}, None),
+    (False, {"crate_name": "prod-api", "crate_version": "1.2.3", "version": "1.2.3"}, None),
+    (False, {"strip_prefix": "com"}, None),
+]
+
+
+def sequence_group(gid, ir_doc):
+    """histories: the SEQ_STEPS generations in ONE process and on one thread (vh gen-seq), the second one on the Config
+    object of the first; every tree must equal the tree a fresh process writes for the configuration in effect."""
+    sandbox = os.path.join(BASE, gid)
+    shutil.rmtree(sandbox, ignore_errors=True)
+    os.makedirs(sandbox)
+    ir_path = os.path.join(sandbox, "ir.json")
+    with open(ir_path, "w") as f:
+        json.dump(ir_doc, f)
+    res = {"id": gid, "violations": [], "drift": [], "runs": 0, "files": 0}
+    steps = [{"ir": ir_path, "out": os.path.join(sandbox, "seq%d" % k), "config": setters, "same_config": same}
+             for k, (same, setters, _) in enumerate(SEQ_STEPS)]
+    with open(os.path.join(sandbox, "steps.json"), "w") as f:
+        json.dump(steps, f)
+    p = subprocess.run([VH, "gen-seq", os.path.join(sandbox, "steps.json")], stdout=subprocess.PIPE, stderr=subprocess.PIPE, text=True, timeout=900)
+    if p.returncode != 0:
+        raise vc.ToolError("vh gen-seq failed: %s" % p.stderr[-300:])
+    answers = [json.loads(l) for l in p.stdout.splitlines() if l.startswith("{")]
+    for k, (same, setters, effective) in enumerate(SEQ_STEPS):
+        cfg = effective if effective is not None else setters
+        ref_dir = os.path.join(sandbox, "ref%d" % k)
+        q = subprocess.run([VH, "gen-tree", ir_path, ref_dir, json.dumps(cfg)], stdout=subprocess.PIPE, stderr=subprocess.PIPE, text=True, timeout=900)
+        res["runs"] += 2
+        ok_seq = k < len(answers) and answers[k]["ok"]
+        if (q.returncode == 0) != ok_seq:
+            res["violations"].append(("C20:history:outcome", "step %d (%s): generation %s in a fresh process but %s after %d earlier generation(s) in the same process" % (
+                k, json.dumps(cfg), "succeeds" if q.returncode == 0 else "fails", "succeeds" if ok_seq else "fails", k), {"step": k, "steps": steps}))
+            continue
+        if q.returncode != 0:
+            continue
+        a, b = snapshot(ref_dir), snapshot(steps[k]["out"])
+        res["files"] += len(a)
+        if a != b:
+            diff = sorted(x for x in set(a) | set(b) if a.get(x) != b.get(x))
+            res["violations"].append(("C20:differs:history:%s" % ("same-config" if same else "fresh-config"),
+                                      "step %d (%s): the tree written after %d earlier generation(s) in the same process differs from a fresh process's in %d path(s), first %s" % (
+                                          k, json.dumps(cfg), k, len(diff), diff[0]), {"files": diff[:10], "step": k, "steps": steps}))
+    if not res["violations"]:
+        shutil.rmtree(sandbox, ignore_errors=True)
+    return res
+
+
 def family_docs():
     docs = {"names": c03gen.names_ir(), "recursion": c03gen.recursion_ir(), "services": c03gen.services_ir()}
     for name, path in (("zoo", os.path.join(vc.HARNESS, "vgen", "ir", "zoo.json")), ("repo-test-ir", "/repo/conjure-test/test-ir.json"),
@@ -458,10 +511,13 @@ def run(tier, seed):
     shutil.rmtree(BASE, ignore_errors=True)
     os.makedirs(BASE)
     results = []
+    seq_jobs = [("seq-%s" % name, doc) for name, doc in fam.items()]
     with concurrent.futures.ThreadPoolExecutor(max_workers=14) as ex:
-        futs = [ex.submit(generate_group, *j) for j in jobs]
+        futs = [ex.submit(generate_group, *j) for j in jobs] + [ex.submit(sequence_group, *j) for j in seq_jobs]
         for f in futs:
             results.append(f.result())
+    for gid, doc in seq_jobs:
+        jobs.append((gid, doc, [("seq", st[1]) for st in SEQ_STEPS], None, False))
     nruns = sum(r["runs"] for r in results)
     nfiles = sum(r["files"] for r in results)
     by_id = {j[0]: j for j in jobs}
@@ -484,8 +540,9 @@ def run(tier, seed):
         "rule": "%d generator processes in %d groups (one group = one IR + configuration, >= 4 processes alternating the conjure-rust binary and the "
                 "library, 6 for crates with >= 2 dependencies); %d groups come from TLC cases (definition x flag forms), %d from %d IR documents "
                 "(3 designed families, the 103-shape zoo, the repository's 4 IR files, an IR with extensions) x 4 configurations; %d files compared per "
-                "reference tree in total; 1 in 40 TLC groups and every crate-mode family group run under strace" % (
-                    nruns, len(results), len(cases), nfam, len(fam), nfiles),
+                "reference tree in total; 1 in 40 TLC groups and every crate-mode family group run under strace; per IR document one history of "
+                "%d generations in ONE process (the second on the first one's Config object), each tree compared with a fresh process's" % (
+                    nruns, len(results), len(cases), nfam, len(fam), nfiles, len(SEQ_STEPS)),
         "model_runs": runs, "coverage_by_action": cov, "exhaustive": False,
     }
     out.assumptions = ["TLC 1.8.0", "separate processes draw independent hash seeds (std RandomState)", "strace sees every file-creating system call of the traced process tree",
